@@ -17,7 +17,7 @@ import warnings
 
 from hypothesis import HealthCheck, Phase, given, seed as hseed, settings, strategies as st
 
-from vf import env, execo
+from vf import env, execo, hyp
 from vf.acc import Acc
 from vf.gen import exprs
 
@@ -362,14 +362,7 @@ def run_shard(spec):
         return acc
 
     if kind == "deep":
-        @hseed(spec["seed"])
-        @settings(max_examples=spec["n"], database=None, deadline=None, phases=[Phase.generate],
-                  suppress_health_check=list(HealthCheck))
-        @given(exprs.deep(depth=4))
         def go(e):
-            if time.time() - t0 > spec["budget_s"]:
-                acc.budget_exhausted = True
-                return
             # cap: only expressions Python itself evaluates quickly are in the domain
             t1 = time.time()
             try:
@@ -383,20 +376,13 @@ def run_shard(spec):
                 return
             one(e)
 
-        go()
+        hyp.run(exprs.deep(depth=4), go, spec["n"], spec["seed"], spec["budget_s"], acc, chunk=250)
         return acc
 
     # programs
     pool = interesting_exprs()
 
-    @hseed(spec["seed"])
-    @settings(max_examples=spec["n"], database=None, deadline=None, phases=[Phase.generate],
-              suppress_health_check=list(HealthCheck))
-    @given(st.data())
     def go2(data):
-        if time.time() - t0 > spec["budget_s"]:
-            acc.budget_exhausted = True
-            return
         if data.draw(st.integers(0, 3)) == 0:
             e = data.draw(exprs.deep(depth=2))
         else:
@@ -413,7 +399,7 @@ def run_shard(spec):
         acc.case(case, nontrivial, classes, sample=PROGRAMS[case["tmpl"]].format(e=e) + "# via " + case["consumer"][1])
         acc.fails(fails)
 
-    go2()
+    hyp.run(st.data(), go2, spec["n"], spec["seed"], spec["budget_s"], acc, chunk=100)
     return acc
 
 
